@@ -7,17 +7,17 @@ SPEC = {'level': 'exploration',
                  'orphanage built with MakeTxOrphanage(latency 12-80, reserved 1.5k-40k) in 11 of 12 cases so that limits are hit by small orphans, production '
                  'limits otherwise; latency limit >= number of peers (a per-peer share of 0 is rejected by an assert in GetDosScore); orphans <= 400,000 weight',
                  'orphan weight computed by own size arithmetic (checked against GetTransactionWeight as a model self-test)'],
- 'stages': [gen('vh_c35', 'c35_orphanage', 6000, 100000, min_cases_quick=1500,
+ 'stages': [gen('vh_c35', 'c35_orphanage', 4000, 80000, min_cases_quick=1000,
                 floors={'eviction': 0.5, 'eviction-with-within-share-peer-present': 0.4, 'evicted-announcement-of-multi-announcer-orphan': 0.15,
                         'latency-limit-hit': 0.25, 'usage-limit-hit': 0.3, 'peer-or-block-erase-removed-something': 0.4,
                         'block-erased-multi-announcer-orphan': 0.15, 'reconsider': 0.4, 'production-limits': 0.03},
                 rule='operation histories vs announcement-set refinement model; non-trivial = eviction while a within-share peer held announcements and a '
                      'peer/block erase that removed something'),
-            gen('vh_c35', 'up_txorphan', 4000, 80000, rule="upstream fuzz target 'txorphan'; supplementary"),
-            gen('vh_c35', 'up_txorphan_protected', 3000, 60000, rule="upstream fuzz target 'txorphan_protected' (honest peers within limits keep their orphans); supplementary"),
-            gen('vh_c35', 'up_txorphanage_sim', 3000, 60000, rule="upstream fuzz target 'txorphanage_sim' (its own simulation model); supplementary")]}
+            gen('vh_c35', 'up_txorphan', 1500, 40000, rule="upstream fuzz target 'txorphan'; supplementary"),
+            gen('vh_c35', 'up_txorphan_protected', 1000, 30000, rule="upstream fuzz target 'txorphan_protected' (honest peers within limits keep their orphans); supplementary"),
+            gen('vh_c35', 'up_txorphanage_sim', 1000, 30000, rule="upstream fuzz target 'txorphanage_sim' (its own simulation model); supplementary")]}
 
-META = {'level_text': 'Generated operation histories (6k per quick run, up to 250 operations over up to 10 peers, one favoured "whale" peer) against an announcement-set '
+META = {'level_text': 'Generated operation histories (4k per quick run, up to 250 operations over up to 10 peers, one favoured "whale" peer) against an announcement-set '
                'reference model: after every operation the observed announcement set must be a subset of the set the explicit effect produces, equal to it '
                'when no global limit is exceeded (peer/block erase remove exactly the affected announcements), within the global latency/usage limits, and '
                'no peer within its per-peer share may have lost an announcement; all documented counters, HaveTx/HaveTxFromPeer, work-set assignment and '
